@@ -354,10 +354,17 @@ def run(tape, ctx, item=None):
         seen = {}
         for d in devs:
             seen.setdefault(d.sig, d)
-        created = sorted(os.path.relpath(p, scratch_top) for p in after if p not in before)
+        tok = os.path.basename(scratch_top)  # the random part of every path of this run
+
+        def norm(x):
+            return x.replace(tok, SCRATCH_PREFIX + "X")
+
+        created = sorted(norm(os.path.relpath(p, scratch_top)) for p in after if p not in before)
+        shown = [(sname, nm.replace(tok.encode(), b"X")) for sname, nm in shown]
         tape.note((shown, st, mode, created, res["err"] and res["err"].split(":")[0]))
         sample = {"names": [(s, repr(n)) for s, n in shown], "outdir_state": st, "mode": mode, "events": [[x.replace(scratch_top, "<SCRATCH>") for x in e[:3]] for e in res["events"][:8]], "raised": res["err"] and res["err"].replace(scratch_top, "<SCRATCH>")}
-        scen = repr((hashlib.sha1(data.replace(top_b, b"<SCRATCH>")).hexdigest(), st, mode, sorted(os.path.relpath(p, scratch_top) for p in before)))
+        # (the document bytes embed the random scratch path, so the scenario is identified by its normalised parts)
+        scen = repr((shown, len(data) - sum(len(nm) - len(sn[1]) for (_, nm), sn in zip(names, shown)) * 0, st, mode, sorted(norm(os.path.relpath(p, scratch_top)) for p in before)))
         return Outcome(list(seen.values()), scen=scen, nontrivial=hostile, sample=sample)
     finally:
         shutil.rmtree(_guard(scratch_top, scratch_top), ignore_errors=True)
